@@ -348,10 +348,10 @@ impl Prop for MixedExcitation {
         "mixed-excitation".into()
     }
     fn rule(&self) -> String {
-        "LPF stream of odd order 1..31 with random h, constant or (50 %) changing from frame to frame among 2-3 vectors; same frames rendered with h (A), with h = delta (B) and with h = 0 (C): A[n] = C[n] + sum_i h[i] (B-C)[n-i+centre] to 1e-12 (noise-free metamorphic form of 'h*pulses + (delta-h)*noise'); B obeys the pulse-train law delayed by the centre tap; C is pure noise. Non-trivial: >= 1 voiced frame with a pulse and order >= 3".into()
+        "LPF stream of odd order 1..31 with random h (30 %: exact special taps 0 / 1 / -1, in particular a centre tap of exactly 1 or 0), constant or (50 %) changing from frame to frame among 2-3 vectors; same frames rendered with h (A), with h = delta (B) and with h = 0 (C): A[n] = C[n] + sum_i h[i] (B-C)[n-i+centre] to 1e-12 (noise-free metamorphic form of 'h*pulses + (delta-h)*noise'); B obeys the pulse-train law delayed by the centre tap; C is pure noise. Non-trivial: >= 1 voiced frame with a pulse and order >= 3".into()
     }
     fn tape_len(&self, _: Tier) -> usize {
-        240
+        400
     }
     fn cases(&self, tier: Tier) -> u32 {
         tier.pick(30_000, 400_000)
@@ -366,7 +366,22 @@ impl Prop for MixedExcitation {
             1 => 1 + 2 * t.urange(1, 15),
             _ => 31,
         };
-        let lpf: Vec<f64> = (0..order).map(|_| t.uniform(-0.5, 1.0)).collect();
+        // taps incl. exact special values (0, 1, -1; in particular a centre tap of exactly 1 or 0)
+        let special = t.chance(0.3);
+        let centre = order / 2;
+        let centre_value = *t.pick(&[1.0, 0.0, 1.0, 0.5]);
+        let lpf: Vec<f64> = (0..order)
+            .map(|i| {
+                let v = t.uniform(-0.5, 1.0);
+                if special && i == centre {
+                    centre_value
+                } else if special && t.chance(0.2) {
+                    *t.pick(&[0.0, 1.0, -1.0])
+                } else {
+                    v
+                }
+            })
+            .collect();
         // half of the cases: the low-pass stream changes from frame to frame (it is a stream)
         let (lpf_alt, lpf_choice) = if t.chance(0.5) {
             let k = t.urange(1, 2);
